@@ -1104,7 +1104,7 @@ def r02_5(ctx):
     ctx.sample({"streams": {k: v.hex() if len(v) < 80 else f"{len(v)} bytes" for k, v in _streams(ctx).items()}})
 
 
-@rule("R02.6", ["C02", "C04", "C01", "C11"], "T-FUN", floor=30)
+@rule("R02.6", ["C02", "C04", "C01", "C11", "C03"], "T-FUN", floor=30)
 def r02_6(ctx):
     """The whole receive pipeline against a reference receiver *with state*: byte streams that mix in-sequence, repeated
     and out-of-sequence DATA frames, RSTACK, ERROR, ACK frames and unparsable frames are pushed through data_received ->
@@ -1129,6 +1129,8 @@ def r02_6(ctx):
         "acks-and-garbage-between": ackf + F + D(2, 0, 1, pay[0]) + F + b"\x83\x12\x34" + F + D(3, 0, 1, pay[1]) + F + ackf + F + D(3, 1, 1, pay[1]) + F,
         "error-rstack-data": error + F + b"\x1a" + rstack + F + D(0, 0, 0, pay[4]) + F + D(1, 0, 0, pay[5]) + F,
         "wraparound": b"".join(D((2 + i) % 8, 0, 0, bytes([i])) + F for i in range(9)),
+        # answers written while the expected number is 0: NAK(0) is A0 54 1A - its CRC contains the CANCEL value and must go out stuffed
+        "rejects-at-zero": rstack + F + b"\x83\x12\x34" + F + D(3, 0, 0, pay[0]) + F + D(0, 0, 0, pay[1]) + F,
     }
 
     def reference(stream):
@@ -1156,6 +1158,7 @@ def r02_6(ctx):
                 ups.append(("reset_received", fl["reset_code"]))
         return ups, writes
 
+    NOT_LAYOUT = ("C02", "C04", "C01", "C11")  # only the bytes written back are a matter of the wire layout (C03)
     px = PX(repo, inline=lambda g, aw: not g.is_async, max_depth=10, max_paths=4,
             models=[("binascii.crc_hqx", crc_model), ("self._transport.is_closing", lambda px_, t, a, k, fr: False),
                     ("self._transport.write", Outcomes(OK(None))), ("*.isEnabledFor", lambda px_, t, a, k, fr: False),
@@ -1197,12 +1200,12 @@ def r02_6(ctx):
                     wrs.append(bytes(a0) if isinstance(a0, (bytes, bytearray)) else repr(a0)[:40])
             key = f"pipeline:{name}"
             if p.terminal != "return":
-                ctx.violation(key, f"stream '{name}' split at {list(cut)}: {p.value!r} escapes the receive callback", func=f, trace=p.trace(40), construct=name)
+                ctx.violation(key, f"stream '{name}' split at {list(cut)}: {p.value!r} escapes the receive callback", func=f, trace=p.trace(40), construct=name, props=NOT_LAYOUT)
             elif ups != want_up:
                 i = next((k for k, (a, b) in enumerate(zip(ups, want_up)) if a != b), min(len(ups), len(want_up)))
                 ctx.violation(key + ":upward", f"stream '{name}' split into reads at {list(cut)}: upward call #{i} is {ups[i] if i < len(ups) else 'missing'!r:.80}, the "
                               f"reference receiver gives {want_up[i] if i < len(want_up) else 'nothing more'!r:.80} ({len(ups)} calls vs {len(want_up)})", func=f,
-                              trace=p.trace(40), construct=name)
+                              trace=p.trace(40), construct=name, props=NOT_LAYOUT)
             elif wrs != want_wr:
                 i = next((k for k, (a, b) in enumerate(zip(wrs, want_wr)) if a != b), min(len(wrs), len(want_wr)))
                 ctx.violation(key + ":answers", f"stream '{name}' split into reads at {list(cut)}: frame #{i} written back is "
